@@ -26,6 +26,9 @@ type Def struct {
 	Gen   func(tier string) []explore.Scenario       // the scenarios of a tier
 	Bound func(tier string, sc explore.Scenario) int // deviation bound per scenario
 	Setup func(c *harness.Check)                     // extra evidence fields / sequential parts
+	// RacesAreViolations: the property itself forbids data races (the verdict reports them);
+	// otherwise racing access sites are promoted to scheduling points and the check re-run.
+	RacesAreViolations bool
 }
 
 var Defs = map[string]*Def{}
@@ -71,6 +74,7 @@ func deadlineFor(tier string) time.Duration {
 // well defined and as large as possible.
 func Worker(id, tier string, i, n int) {
 	def := Defs[id]
+	explore.SetPromoted(strings.Split(os.Getenv("VERIF_PROMOTE"), ","))
 	scs := def.Gen(tier)
 	deadline := time.Now().Add(deadlineFor(tier))
 	type state struct {
@@ -171,40 +175,39 @@ func Main(id, tier string) {
 	if n > len(scs) {
 		n = len(scs)
 	}
-	total := explore.NewStats()
-	var mu sync.Mutex
-	var wg sync.WaitGroup
+	// Refinement: a data race means that the racing accesses can interleave more finely than
+	// the scheduling points at synchronisation operations allow for. The sites of every race
+	// seen become scheduling points themselves and the whole check is run again, until no new
+	// racing site appears (a check whose property forbids races outright reports them itself).
+	var promoted []string
+	var total *explore.Stats
 	minDone := 1 << 30
-	for i := 0; i < n; i++ {
-		wg.Add(1)
-		go func(i int) {
-			defer wg.Done()
-			cmd := exec.Command(os.Args[0], "worker", id, tier, strconv.Itoa(i), strconv.Itoa(n))
-			cmd.Env = append(os.Environ(), "GOMAXPROCS=2")
-			cmd.Stderr = os.Stderr
-			out, err := cmd.Output()
-			var st *explore.Stats
-			for _, line := range strings.Split(string(out), "\n") {
-				if strings.HasPrefix(line, "STATS ") {
-					st = explore.NewStats()
-					if e := json.Unmarshal([]byte(strings.TrimPrefix(line, "STATS ")), st); e != nil {
-						st = nil
-					}
+	var refinement []string
+	for round := 0; ; round++ {
+		total, minDone = runWorkers(id, tier, n, promoted)
+		fresh := false
+		have := map[string]bool{}
+		for _, p := range promoted {
+			have[p] = true
+		}
+		for r := range total.Races {
+			for _, part := range strings.Split(r, " || ") {
+				site := part[strings.Index(part, "@")+1:]
+				if !have[site] {
+					have[site] = true
+					promoted = append(promoted, site)
+					fresh = true
 				}
 			}
-			if err != nil || st == nil {
-				fmt.Fprintf(os.Stderr, "HARNESS-ERROR: worker %d of %s failed: %v\n%s\n", i, id, err, lastLines(string(out), 20))
-				os.Exit(2)
-			}
-			mu.Lock()
-			total.Merge(st)
-			if st.BoundDone < minDone {
-				minDone = st.BoundDone
-			}
-			mu.Unlock()
-		}(i)
+		}
+		sort.Strings(promoted)
+		if !fresh || def.RacesAreViolations || round >= 3 || total.Capped {
+			break
+		}
+		refinement = append(refinement, fmt.Sprintf("round %d: %d racing access pairs; %d sites become scheduling points", round, len(total.Races), len(promoted)))
+		fmt.Fprintf(os.Stderr, "%s: data races seen (%d pairs): re-running with %d access sites as scheduling points\n", id, len(total.Races), len(promoted))
 	}
-	wg.Wait()
+	explore.SetPromoted(promoted)
 	c.States.Store(total.Points + total.Executions)
 	c.Transitions.Store(total.Steps)
 	c.Traces.Store(total.Executions)
@@ -230,6 +233,21 @@ func Main(id, tier string) {
 	c.SetExtra("horizon_cut_executions_inconclusive", total.Inconclusive)
 	c.SetExtra("max_steps_per_execution", total.MaxSteps)
 	c.SetExtra("distinct_outcome_classes", len(total.Outcomes))
+	if os.Getenv("VERIF_NOACCESS") != "" {
+		c.Note("the overlay with plain-access instrumentation did not build on this tree: this run had no data-race detection")
+	} else {
+		c.SetExtra("plain_accesses_clock_checked", total.Accesses)
+		var races []string
+		for r, k := range total.Races {
+			races = append(races, fmt.Sprintf("%s (%d executions)", r, k))
+		}
+		sort.Strings(races)
+		c.SetExtra("data_races", races)
+		if len(refinement) > 0 {
+			c.SetExtra("race_refinement", refinement)
+			c.SetExtra("access_sites_promoted_to_scheduling_points", promoted)
+		}
+	}
 	// a few outcome classes for the reader
 	var classes []string
 	for k, v := range total.Outcomes {
@@ -263,6 +281,7 @@ func Main(id, tier string) {
 	// confirm violations: the same schedule must fail the same way twice
 	for _, f := range total.Found {
 		sc := Build(f.Spec)
+		explore.SetPromoted(f.Promoted)
 		_, o1 := explore.RunOnce(sc, f.Choices)
 		_, o2 := explore.RunOnce(sc, f.Choices)
 		if o1.Violation != f.Violation || o2.Violation != f.Violation {
@@ -291,6 +310,46 @@ func Main(id, tier string) {
 		def.Setup(c)
 	}
 	c.Finish()
+}
+
+
+// runWorkers shards the scenarios of a check over worker processes and merges their statistics.
+func runWorkers(id, tier string, n int, promoted []string) (*explore.Stats, int) {
+	total := explore.NewStats()
+	var mu sync.Mutex
+	var wg sync.WaitGroup
+	minDone := 1 << 30
+	for i := 0; i < n; i++ {
+		wg.Add(1)
+		go func(i int) {
+			defer wg.Done()
+			cmd := exec.Command(os.Args[0], "worker", id, tier, strconv.Itoa(i), strconv.Itoa(n))
+			cmd.Env = append(os.Environ(), "GOMAXPROCS=2", "VERIF_PROMOTE="+strings.Join(promoted, ","))
+			cmd.Stderr = os.Stderr
+			out, err := cmd.Output()
+			var st *explore.Stats
+			for _, line := range strings.Split(string(out), "\n") {
+				if strings.HasPrefix(line, "STATS ") {
+					st = explore.NewStats()
+					if e := json.Unmarshal([]byte(strings.TrimPrefix(line, "STATS ")), st); e != nil {
+						st = nil
+					}
+				}
+			}
+			if err != nil || st == nil {
+				fmt.Fprintf(os.Stderr, "HARNESS-ERROR: worker %d of %s failed: %v\n%s\n", i, id, err, lastLines(string(out), 20))
+				os.Exit(2)
+			}
+			mu.Lock()
+			total.Merge(st)
+			if st.BoundDone < minDone {
+				minDone = st.BoundDone
+			}
+			mu.Unlock()
+		}(i)
+	}
+	wg.Wait()
+	return total, minDone
 }
 
 // Embedded is what an embedded run (VERIF_EMBED=1) hands back to the check that started it.
@@ -335,6 +394,7 @@ func Replay(path string) {
 		os.Exit(2)
 	}
 	sc := Build(f.Spec)
+	explore.SetPromoted(f.Promoted)
 	s1, o1 := explore.RunOnce(sc, f.Choices)
 	_, o2 := explore.RunOnce(sc, f.Choices)
 	if o1.Violation != o2.Violation {
